@@ -1,6 +1,6 @@
 (** WriteRound: the writer model composed with the READER model (Reader/ReaderImpl.v, another component's
-    Impl model of read_cgsmiles, itself validated against the implementation): refutations of the full C07
-    statement with concrete witnesses, and the bounded exhaustive round-trip theorem [C07_small]. *)
+    Impl model of read_cgsmiles, itself validated against the implementation): the former
+    witnesses of the three repaired defect classes (now positive theorems), and the bounded exhaustive round-trip theorem [C07_small]. *)
 From Coq Require Import String.
 From Coq Require Import List Ascii ZArith Bool Lia.
 From CGV Require Import Base.PyBase Base.PyVal Base.PyGen Base.NxGraph Gen.WriterGen Write.WriteImpl Write.WriteDefs.
@@ -31,7 +31,7 @@ Definition mkg (nodes : list (Z * string)) (edges : list (Z * Z * Z)) : graph :=
             edges
             (fold_left (fun g kn => add_node g (fst kn) [(S "fragname", VStr (S (snd kn)))]) nodes gempty).
 
-(** ------------------------------------------------------------------ refutations (one witness per class) *)
+(** ------------------------------------------------------------------ former witnesses (one per repaired class) *)
 Definition w_branch : graph := mkg [(0, "A"); (1, "B"); (2, "C")]%string [(0, 1, 1); (0, 2, 2)].
 Definition w_ring : graph := mkg [(0, "A"); (1, "B"); (2, "C")]%string [(0, 1, 1); (1, 2, 1); (0, 2, 2)].
 Definition w_pct : graph :=
@@ -53,13 +53,12 @@ Proof. repeat split; vm_compute; reflexivity. Qed.
 Theorem C07_fixed_ring_edge_order :
   wf_C07 w_ring = true /\ roundtrip_code w_ring [(0, 2)] = 0%nat /\ write_cgsmiles_graph w_ring [(0, 2)] = Ok (S "{[#A]=1[#B][#C]1}").
 Proof. repeat split; vm_compute; reflexivity. Qed.
-(** STILL OPEN, writer/reader: `%10` directly followed by a one-digit marker is read as marker 1027 *)
-Theorem C07_refuted_pct_marker :
-  refutes w_pct w_pct_tr 3 2 /\
-  write_cgsmiles_graph w_pct w_pct_tr = Ok (S "{[#A]123[#A]4567[#A]89[#A]%1027[#A]196([#A]538)[#A]%104}").
+(** REPAIRED (fix b681517): once a `%nn` marker was written on a node every further marker of that node is written
+    `%0n`; the former witness of class pct_marker_then_digit (`[#A]%1027`, read as marker 1027) round-trips *)
+Theorem C07_fixed_pct_marker :
+  refutes w_pct w_pct_tr 0 0 /\
+  write_cgsmiles_graph w_pct w_pct_tr = Ok (S "{[#A]123[#A]4567[#A]89[#A]%10%02%07[#A]196([#A]538)[#A]%10%04}").
 Proof. split; [repeat split|]; vm_compute; reflexivity. Qed.
-Theorem C07_refuted : exists g tr, wf_C07 g = true /\ ring_contract g (dfs_tree g) tr = true /\ roundtrip_code g tr <> 0%nat.
-Proof. exists w_pct, w_pct_tr. repeat split; try (vm_compute; reflexivity). vm_compute. discriminate. Qed.
 
 (** ------------------------------------------------------------------ bounded exhaustive theorem *)
 Fixpoint all_pairs (keys : list Z) : list (Z * Z) :=
@@ -82,8 +81,7 @@ Fixpoint insert_all {A} (x : A) (l : list A) : list (list A) :=
 Fixpoint perms {A} (l : list A) : list (list A) :=
   match l with [] => [[]] | x :: r => flat_map (insert_all x) (perms r) end.
 (** the round trip holds on [g] for EVERY order in which the set of ring edges may be iterated
-    (no class is excluded: the one open class, pct_marker_then_digit, needs >= 10 open rings and does not
-    occur in the family, which the computation itself shows) *)
+    (no class is excluded; no class of C07 is open) *)
 Definition small_ok (g : graph) : bool :=
   negb (wf_C07 g)
   || forallb (fun tr => Nat.eqb (roundtrip_code g tr) 0) (perms (nontree_edges g (dfs_tree g))).
@@ -112,12 +110,6 @@ Proof.
   unfold small_ok in H. rewrite Hwf in H. cbn [negb orb] in H.
   rewrite forallb_forall in H. specialize (H tr Htr). now apply Nat.eqb_eq.
 Qed.
-(** the same as the PARTIAL form of the property's statement on the family: outside the open class *)
-Corollary C07_partial_small : forall g, In g small_all -> wf_C07 g = true ->
-  forall tr, In tr (perms (nontree_edges g (dfs_tree g))) -> class_C07 g tr = 0%nat -> roundtrip_code g tr = 0%nat.
-Proof. intros g Hg Hwf tr Htr _. now apply C07_small. Qed.
-(** non-vacuity: how many graphs of the family are in the domain, and how many of them have a non-single
-    bond on a branch edge or on a ring-closing edge (the two repaired classes) *)
 Example C07_small_nonvacuous :
   Z.of_nat (length (filter wf_C07 small_all)) = 9007
   /\ Z.of_nat (length (filter (fun g => wf_C07 g && (cls_branch_order g || cls_ring_order g)) small_all)) = 6600.
